@@ -69,6 +69,11 @@ func DeserializeEncrypted(data, authKey []byte) (*Encrypted, error) {
 		return nil, err
 	}
 	keyHash := d.PopRawBytes(tl.LongLen)
+	if len(authKey) == 0 {
+		// key exchange is not finished yet, so nothing can be sealed with key of this session: hash of empty key
+		// is a key id like any other, and frame which carries it must not be "decrypted" with key which doesn't exist
+		return nil, errors.New("got encrypted message, but session has no auth key yet")
+	}
 	if !bytes.Equal(keyHash, utils.AuthKeyHash(authKey)) {
 		return nil, errors.New("wrong encryption key")
 	}
